@@ -200,6 +200,8 @@ type response struct {
 	// "" if the errors of the body are exactly the failures the request's own resolvers raised (fail.go), otherwise
 	// the body with those errors
 	want string
+	// which part of the body was not the request's own: "errors" / "extensions" / "errors+extensions" (mutate.go)
+	wantKind string
 }
 
 func (r response) String() string { return fmt.Sprintf("%d %s %s", r.status, r.hdr, r.body) }
@@ -215,7 +217,8 @@ func (s *server) serve(q *rq) response {
 		req.Header = http.Header{}
 	}
 	fl := &failLog{}
-	req = req.WithContext(context.WithValue(req.Context(), failKey{}, fl))
+	ml := &mutLog{v: req.Header.Get(mutHeader)}
+	req = req.WithContext(context.WithValue(context.WithValue(req.Context(), failKey{}, fl), mutKey{}, ml))
 	rec := httptest.NewRecorder()
 	func() {
 		defer func() {
@@ -231,7 +234,8 @@ func (s *server) serve(q *rq) response {
 		hs = append(hs, k+"="+strings.Join(v, "|"))
 	}
 	sort.Strings(hs)
-	return response{rec.Code, strings.Join(hs, ";"), rec.Body.String(), ownErrorsCheck(s.errCfg, fl, rec.Body.String())}
+	want, wantKind := ownCheck(s.errCfg, fl, ml, rec.Body.String())
+	return response{rec.Code, strings.Join(hs, ";"), rec.Body.String(), want, wantKind}
 }
 
 // ---------------------------------------------------------------- classification of what the implementation did
@@ -557,10 +561,15 @@ func emit(r *record, orc response, mode string) {
 		// the errors of the response are not the failures of the request's own resolvers. A server built in the same
 		// process may share the state that did it, so the reference response is the one computed from the request
 		verdict = "DIFF"
-		orc = response{r.resp.status, r.resp.hdr, r.resp.want, ""}
-		extra += " errors-not-own:" + hx("the `errors` of the response are not the failures this request's own resolvers raised (path / message / extensions of each failure logged out of band by the probe resolvers); the reference response is the response with exactly those errors")
+		orc = response{r.resp.status, r.resp.hdr, r.resp.want, "", ""}
+		if strings.Contains(r.resp.wantKind, "extensions") {
+			extra += " ext-not-own:" + hx("the `extensions` of the response are not what this request's own response middleware wrote into resp.Extensions (every write logged out of band; a request without an X-Mut header writes nothing): a write made for ANOTHER request is visible here - the map gqlgen hands to response middleware is shared between requests; the reference response is the response with exactly the request's own extensions")
+		}
+		if strings.Contains(r.resp.wantKind, "errors") {
+			extra += " errors-not-own:" + hx("the `errors` of the response are not the failures this request's own resolvers raised (path / message / extensions of each failure logged out of band by the probe resolvers); the reference response is the response with exactly those errors")
+		}
 	} else if orc.want != "" {
-		extra += " fresh-errors-not-own:" + hx("a FRESHLY CONSTRUCTED server of this process answered this request with errors that are not the failures of the request's own resolvers (state global to the process): here `response` is the stateful server's and `fresh_server_response` the fresh server's")
+		extra += " fresh-" + map[bool]string{true: "ext", false: "errors"}[strings.Contains(orc.wantKind, "extensions")] + "-not-own:" + hx("a FRESHLY CONSTRUCTED server of this process answered this request with errors that are not the failures of the request's own resolvers (state global to the process): here `response` is the stateful server's and `fresh_server_response` the fresh server's")
 	}
 	if len(r.docsBad) > 0 {
 		extra += " cached-doc-changed:" + hx(strings.Join(r.docsBad, "\x00"))
@@ -720,6 +729,9 @@ func main() {
 			if g.pick(2) != 0 { // the default recover func and error presenter in 1 of 2 histories
 				hdrName += "/" + errCfgNames[1+g.pick(len(errCfgNames)-1)]
 			}
+			if g.pick(5) < 2 { // 2 of 5 histories with middleware that writes into what gqlgen hands it (mutate.go)
+				hdrName = withMw(hdrName, mwCfgNames[g.pick(len(mwCfgNames))])
+			}
 			cfgName := cfg[0] + "/" + cfg[1] + "/" + hdrName
 			srv := newServer(cfg[0], cfg[1], hdrName, nil)
 			fmt.Fprintf(out, "S\t%d\t%s\trandom\n", sid, cfgName)
@@ -770,6 +782,9 @@ func main() {
 			if g.pick(3) == 0 {
 				hdrName += "/" + errCfgNames[1+g.pick(len(errCfgNames)-1)]
 			}
+			if g.pick(3) == 0 {
+				hdrName = withMw(hdrName, mwCfgNames[g.pick(len(mwCfgNames))])
+			}
 			runGroup(sid, qcs[g.pick(3)]+"/lru1000/"+hdrName, randomGroup(g), g.pre)
 			sid++
 		}
@@ -793,6 +808,9 @@ func main() {
 		hdrName := hdrCfgNames[b%len(hdrCfgNames)]
 		if b%2 == 1 { // every other batch with a configured recover func / presenter
 			hdrName += "/" + errCfgNames[1+(b/2)%(len(errCfgNames)-1)]
+		}
+		if b%3 == 2 { // every third batch with mutating middleware (mutate.go)
+			hdrName = withMw(hdrName, mwCfgNames[(b/3)%len(mwCfgNames)])
 		}
 		cfgName := "lru1000/lru1000/" + hdrName
 		srv := newServer("lru1000", "lru1000", hdrName, nil)
